@@ -2,12 +2,12 @@ SPECIFICATION Spec
 CONSTANTS Flows = {1, 2}
           ProtoOf <- Proto_uu
           TO <- TO_213
-          InitRules <- SemInitRules
+          InitRules <- SemInitRulesU
           RuleSets <- NoRuleSets
           Reloads = TRUE
-          Cfgs <- SemCfgs
-          InitCfg <- SemInit
-          EffOf <- EffSem
+          Cfgs <- SemCfgsU
+          InitCfg <- SemInitU
+          EffOf <- EffSemU
           VerMod = 3
           Gaps <- NoGaps
           MaxItems = 2
